@@ -59,6 +59,8 @@ type Got struct {
 	StateSeq int64  `json:"state_seq"`
 	Sec      int64  `json:"sec"`
 	Nsec     int64  `json:"nsec"`
+	TxnMax   int64  `json:"txn_max"`
+	TxnMaxQ  int64  `json:"txn_max_queried"`
 	Err      string `json:"err"` // error class ("" when none)
 	Detail   string `json:"detail"`
 	Count    int    `json:"count"`
@@ -300,6 +302,7 @@ func runHistory(line []byte) Out {
 				g.Outcome = "ok"
 				g.Seq, g.StateSeq = int64(seq), int64(st.SeqNum)
 				g.Sec, g.Nsec = st.Timestamp.Unix(), int64(st.Timestamp.Nanosecond())
+				g.TxnMax, g.TxnMaxQ = int64(st.TxnMax), int64(st.TxnMaxQueried)
 			}
 			out.Runs = append(out.Runs, Run{Q: q.Q, Got: g})
 		}
